@@ -246,6 +246,7 @@ LOG_METHODS = {"debug", "info", "warning", "error", "exception", "critical"}
 
 
 CLOSURES = {}
+RETURNS_PARAM = {}
 
 
 class Interp(object):
@@ -1640,11 +1641,40 @@ class Interp(object):
         if site is not None:
             self._site += 1
             site = "%s#%d" % (site, self._site)
+        if callee is not None:
+            # a resolved helper that is not inlined but provably returns one of its parameters (track_future(f))
+            idx = self.returns_param(callee)
+            if idx is not None:
+                pos = [a for a in args if not (isinstance(a, tuple) and a and a[0] == "star")]
+                if len(pos) == len(args) and idx < len(pos):
+                    return pos[idx]
         res = ("call", fv, args, kwargs, site)
         if callee is not None and res not in p.types:
             rts = [t for t in self.types._return_type(callee, 0) if t.startswith("C:")]
             if len(rts) == 1:
                 p.types[res] = rts[0]
+        return res
+
+    def returns_param(self, callee):
+        """index (among the positional parameters after self) of the parameter that `callee` returns on every
+        returning path, or None"""
+        cache = RETURNS_PARAM
+        if callee.key in cache:
+            return cache[callee.key]
+        cache[callee.key] = None  # recursion guard
+        res = None
+        if callee.owner is None and callee.params and not callee.is_contextmanager:
+            try:
+                sub = Interp(self.prog, self.types, Config(maxdepth=0, maxpaths=200))
+                ps = sub.run(callee, None)
+                vals = set(p.value for p in ps if p.status == "return")
+                if len(vals) == 1 and not sub.truncated:
+                    v = vals.pop()
+                    if isinstance(v, tuple) and v[0] == "param" and v[1] in callee.params:
+                        res = callee.params.index(v[1])
+            except AnalysisError:
+                res = None
+        cache[callee.key] = res
         return res
 
     def bind_record(self, ci, obj, args, kwargs, p):
